@@ -15,7 +15,7 @@ Fixpoint am_set (id : Z) (v : list Z) (m : amap) : amap :=
 Fixpoint am_del (id : Z) (m : amap) : option amap :=
   match m with
   | [] => None
-  | (k, x) :: t => if k =? id then Some t
+  | (k, x) :: t => if k =? id then Some (filter (fun p => negb (fst p =? id)) t)   (* every entry of the key goes *)
                    else match am_del id t with Some t' => Some ((k, x) :: t') | None => None end
   end.
 
@@ -61,11 +61,33 @@ Proof.
   - apply IH. intros Hin. apply H. right. exact Hin.
 Qed.
 
+Lemma am_get_filter_same id m : am_get id (filter (fun p => negb (fst p =? id)) m) = None.
+Proof.
+  induction m as [|[k x] t IH]; [reflexivity|]. cbn [filter fst].
+  destruct (k =? id) eqn:E; cbn [negb]; [exact IH|]. cbn [am_get]. rewrite E. exact IH.
+Qed.
+
+Lemma am_get_filter_other id id' m : id' <> id ->
+  am_get id' (filter (fun p => negb (fst p =? id)) m) = am_get id' m.
+Proof.
+  intros Hne. induction m as [|[k x] t IH]; [reflexivity|]. cbn [filter fst am_get].
+  destruct (k =? id) eqn:E; cbn [negb am_get].
+  - destruct (k =? id') eqn:E2; [lia|exact IH].
+  - destruct (k =? id'); [reflexivity|exact IH].
+Qed.
+
+Lemma am_ids_filter id m :
+  am_ids (filter (fun p => negb (fst p =? id)) m) = filter (fun k => negb (k =? id)) (am_ids m).
+Proof.
+  induction m as [|[k x] t IH]; [reflexivity|]. cbn [filter am_ids map fst].
+  destruct (k =? id); cbn [negb map fst]; [exact IH|]. f_equal. exact IH.
+Qed.
+
 Lemma am_del_ids_incl id m m' : am_del id m = Some m' -> incl (am_ids m') (am_ids m).
 Proof.
   revert m'. induction m as [|[k x] t IH]; intros m' H; cbn [am_del] in H; [discriminate|].
   destruct (k =? id).
-  - injection H as <-. intros a Ha. right. exact Ha.
+  - injection H as <-. intros a Ha. right. rewrite am_ids_filter in Ha. apply filter_In in Ha as [Ha _]. exact Ha.
   - destruct (am_del id t) as [t'|]; [|discriminate]. injection H as <-.
     intros a Ha. cbn [am_ids map fst] in *. destruct Ha as [->|Ha]; [left; reflexivity|right; apply (IH t' eq_refl a Ha)].
 Qed.
@@ -77,9 +99,9 @@ Proof.
   revert m'. induction m as [|[k x] t IH]; intros m' H; cbn [am_del] in H; [discriminate|].
   cbn [am_get]. destruct (k =? id) eqn:E.
   - injection H as <-. split; [discriminate|]. split.
-    + intros Hnd. cbn [am_ids map fst] in Hnd. apply NoDup_cons_iff in Hnd as [Hnin Hnd]. split; [|exact Hnd].
-      assert (k = id) by lia. subst k. apply am_get_notin. exact Hnin.
-    + intros id' Hne. destruct (k =? id') eqn:E2; [lia|reflexivity].
+    + intros Hnd. cbn [am_ids map fst] in Hnd. apply NoDup_cons_iff in Hnd as [Hnin Hnd].
+      split; [apply am_get_filter_same|]. rewrite am_ids_filter. apply NoDup_filter. exact Hnd.
+    + intros id' Hne. destruct (k =? id') eqn:E2; [lia|]. apply am_get_filter_other. exact Hne.
   - destruct (am_del id t) as [t'|] eqn:Ed; [|discriminate]. injection H as <-.
     destruct (IH t' eq_refl) as (H1 & H2 & H3). split; [exact H1|]. split.
     + intros Hnd. cbn [am_ids map fst] in Hnd. apply NoDup_cons_iff in Hnd as [Hnin Hnd].
@@ -87,6 +109,18 @@ Proof.
       cbn [am_ids map fst]. apply NoDup_cons; [|exact Hnd'].
       intros Hin. apply Hnin. exact (am_del_ids_incl id t t' Ed k Hin).
     + intros id' Hne. cbn [am_get]. destruct (k =? id'); [reflexivity|apply H3; exact Hne].
+Qed.
+
+(* "deleted ids absent", whether or not the map held the key more than once *)
+Lemma am_del_absent id m m' : am_del id m = Some m' -> am_get id m' = None /\ ~ In id (am_ids m').
+Proof.
+  revert m'. induction m as [|[k x] t IH]; intros m' H; cbn [am_del] in H; [discriminate|].
+  destruct (k =? id) eqn:E.
+  - injection H as <-. split; [apply am_get_filter_same|]. rewrite am_ids_filter. intros Hin.
+    apply filter_In in Hin as [_ Hin]. rewrite Z.eqb_refl in Hin. discriminate.
+  - destruct (am_del id t) as [t'|]; [|discriminate]. injection H as <-.
+    destruct (IH t' eq_refl) as [Hg Hn]. cbn [am_get am_ids map fst]. rewrite E. split; [exact Hg|].
+    intros [Hk|Hin]; [lia|exact (Hn Hin)].
 Qed.
 
 Lemma am_del_none id m : am_del id m = None <-> am_get id m = None.
